@@ -606,7 +606,24 @@ fn vm_case_inner(out: &mut Out, c: VmCase, class: &str) {
     });
 }
 
+/// the witnesses of the known finding on LDC padding (replayed on every run, every seed): a
+/// 16-byte value, offset 0, $rC = 1 / 9: the padding up to the word boundary holds value bytes
+fn padding_witnesses(out: &mut Out) {
+    let id = [7u8; 32];
+    let value: Vec<u8> = (1..=16).collect();
+    let setup = vec![Setup::GrowStack(64), Setup::Write(0, id.to_vec())];
+    for (mode, c) in [(0u8, 1u64), (1, 1), (0, 9), (1, 9), (0, 8), (1, 16), (0, 17)] {
+        let case = VmCase {
+            setup: setup.clone(), ssp: 64, sp: 64, hp: MEM, fp: 2000, max_size: 1024,
+            contracts: vec![(id, value.clone())], blobs: vec![(id, value.clone())],
+            instr: Instr::Ldc { a: 0, b: 0, c, mode },
+        };
+        vm_case(out, case, "ldc-padding-witness");
+    }
+}
+
 fn part_b(args: &Args, out: &mut Out, rng: &mut Rng) {
+    padding_witnesses(out);
     let rounds = args.scale(2, 40);
     for round in 0..rounds {
         // two contracts and two blobs with lengths around word boundaries
